@@ -94,34 +94,44 @@ PClass(p) == CASE p \in PickleProtocols \cup {"pickle_nested", "pickle_withunit"
 \* the follow-up battery, in the (fixed) order it is applied; each follow-up pair starts from empty process-wide memos
 FupSeq == << "sin", "cos", "tan", "mul_self", "div_self", "square", "mul_scalar", "div_scalar", "add_self", "sub_self",
              "add_orig", "radd_orig", "sub_orig", "rsub_orig", "mul_orig", "eq_orig", "lt_orig", "ueq_orig", "hash_orig",
-             "diff", "ptp", "in_base", "in_cgs", "in_mks", "in_code", "to_custom", "convert_custom", "to_value",
+             "diff", "ptp", "in_base", "in_cgs", "in_mks", "in_code", "base_equiv_code", "to_custom", "convert_custom", "to_value",
              "prefix_construct", "custom_construct", "umul_self", "upow2", "umul_m", "udiv_orig", "is_dimensionless",
              "same_dims", "base_equiv", "cgs_equiv", "conv_factor", "list_same", "num_times_unit", "qty_times_unit",
              "str_unit", "latex" >>
 Fups == {FupSeq[i] : i \in DOMAIN FupSeq}
-\* observed and transcribed, but not demanded by the statement (see design_parts/C11.md): hash of the unit
-NotDemanded == {"hash_orig"}
+\* follow-ups that are observed and transcribed but not demanded (none at present: the hash of the unit against the hash
+\* of the original's unit is demanded - equal units must be usable as the same dictionary key)
+NotDemanded == {}
 
 CONSTANTS MaxChain,     \* longest chain of persistence paths
           PathSet,      \* paths enabled in this instance
           Combos,       \* <<registry, unit name>> pairs enabled
-          ClsSet, OrderSet
+          ClsSet, OrderSet,
+          PreSet        \* <<pre, memo>> pairs: what happened to the registry BEFORE the object was persisted
+\* pre   "idlast"  every prefixed symbol the history uses was resolved (derived rows written back) BEFORE the registry's id
+\*                 (unit_system_id, an md5 of the table memoised in _unit_system_id) was computed and the "code" unit
+\*                 system was registered under it
+\*       "idfirst" the code unit system was registered first; prefixed symbols are first used afterwards: the look-up
+\*                 writes derived rows into the table but does not reset the memoised id (unit_registry.py:333)
+\* memo  "warm"    the object's unit was built from the spelling str(unit): the registry's string memo holds it
+\*       "cold"    it was built from another spelling ("1*km"): Unit.copy() does not find it in the memo
 
 VARIABLES phase, obj, chain, st, fups, order
 vars == <<phase, obj, chain, st, fups, order>>
 
-NoObj == [cls |-> "", reg |-> "", unit |-> ""]
+NoObj == [cls |-> "", reg |-> "", unit |-> "", pre |-> "", memo |-> ""]
 NoSt == [alive |-> FALSE, cls |-> "", ident |-> "na", regnew |-> FALSE, usys |-> "", lutkept |-> TRUE, idkept |-> TRUE, dimshared |-> TRUE, lutmixed |-> FALSE, key |-> "", unitkept |-> TRUE]
 Init == phase = "new" /\ obj = NoObj /\ chain = <<>> /\ st = NoSt /\ fups = <<>> /\ order = ""
 
 Available(r, u) == UnitRow(u).cust => r # "default"
 OrigUsys(r) == IF r = "customcgs" THEN "cgs" ELSE "mks"
 
-Build(c, r, u) ==
+Build(c, r, u, pre, memo) ==
   /\ phase = "new" /\ Available(r, u)
-  /\ obj' = [cls |-> c, reg |-> r, unit |-> u]
+  /\ (r = "default" => pre = "idlast")      \* the default registry's id is computed at import
+  /\ obj' = [cls |-> c, reg |-> r, unit |-> u, pre |-> pre, memo |-> memo]
   /\ st' = [alive |-> TRUE, cls |-> c, ident |-> IF UnitRow(u).dim = "compound" THEN "na" ELSE "singleton", regnew |-> FALSE,
-            usys |-> OrigUsys(r), lutkept |-> TRUE, idkept |-> TRUE, dimshared |-> TRUE, lutmixed |-> FALSE, key |-> "expr", unitkept |-> TRUE]
+            usys |-> OrigUsys(r), lutkept |-> TRUE, idkept |-> TRUE, dimshared |-> TRUE, lutmixed |-> FALSE, key |-> IF memo = "warm" \/ r = "default" THEN "expr" ELSE "cold", unitkept |-> TRUE]   \* (the default registry's memo is warm from import)
   /\ phase' = "paths" /\ UNCHANGED <<chain, fups, order>>
 
 (* ---- which path applies to which object ---- *)
@@ -149,7 +159,7 @@ Reparse(s, u) == IF s.lutmixed /\ s.ident # "na"
                  ELSE [s EXCEPT !.dimshared = IF s.lutmixed THEN s.dimshared ELSE TRUE]
 \* the new registry's string memo holds the unit under str(expr) (Unit.copy put it there); str(unit) is that spelling
 \* unless it carries a degree sign
-MemoHit(s, row) == s.lutmixed /\ s.key = "expr" /\ ~row.deg
+MemoHit(s, row) == ~row.deg /\ ((s.lutmixed /\ s.key = "expr") \/ s.key = "poison")
 PathEffect(p, s, o) ==
   LET row == UnitRow(o.unit)
       u == o.unit
@@ -161,17 +171,23 @@ PathEffect(p, s, o) ==
          IF s.cls = "unit" THEN [s EXCEPT !.ident = Lose(s.ident, u), !.regnew = TRUE, !.dimshared = TRUE, !.lutmixed = FALSE, !.key = "none"]
          ELSE IF p = "pickle_withunit" /\ s.unitkept /\ ~Rescale(s, o).unitkept
               THEN Dead(s)   \* the pickled Unit object keeps its scale, the array's unit string is re-parsed in the reverted table: they disagree
-         ELSE [Rescale(s, o) EXCEPT !.ident = Lose(s.ident, u), !.regnew = TRUE, !.usys = "mks", !.dimshared = TRUE, !.lutmixed = FALSE, !.key = "none"]
+         ELSE \* the new registry computes its id from the table as it is now: not the original's memoised one when that went stale
+              [Rescale(s, o) EXCEPT !.ident = Lose(s.ident, u), !.regnew = TRUE, !.usys = "mks", !.dimshared = TRUE, !.lutmixed = FALSE, !.key = "none",
+                                    !.idkept = s.idkept /\ o.pre = "idlast"]
     [] c \in {"deepcopy", "unitdeep"} ->
-         \* Unit.copy(deep=True): deepcopy(dimensions) + deepcopy(registry) = type(registry)(lut=deepcopy(lut)) with
-         \* add_default_symbols=True: the defaults are written over the copied table
-         [s EXCEPT !.ident = Lose(s.ident, u), !.regnew = TRUE, !.usys = "mks", !.dimshared = ~Atomic(u), !.lutmixed = TRUE, !.key = "expr",
-                   !.lutkept = s.lutkept /\ o.reg = "default", !.idkept = s.idkept /\ o.reg = "default"]
+         \* Unit.copy(deep=True): deepcopy(dimensions) + deepcopy(registry) = type(registry)(lut=deepcopy(lut),
+         \* add_default_symbols=False, unit_system=registry.unit_system) (since repository fix 24fb26f: table and unit system
+         \* kept); the id is recomputed from the table
+         [s EXCEPT !.ident = Lose(s.ident, u), !.regnew = TRUE, !.dimshared = TRUE, !.lutmixed = FALSE, !.key = "expr",
+                   !.idkept = s.idkept /\ o.pre = "idlast"]
     [] c = "copy" ->
          \* copy.copy / ndarray-level copies keep the unit object; Unit.copy() re-creates Unit(str(expr), ..., deepcopy(dimensions),
          \* copy(registry)) and only gets the memoised original back when the string memo holds that spelling
-         IF p = "dot_copy" /\ s.cls = "unit" /\ s.key = "str" /\ row.deg
-         THEN [s EXCEPT !.ident = Lose(s.ident, u), !.dimshared = IF s.ident = "copy" THEN s.dimshared ELSE FALSE]
+         IF p = "dot_copy" /\ s.cls = "unit" /\ (s.key = "cold" \/ (s.key = "str" /\ row.deg))
+         THEN \* ... and the re-created unit (deep-copied dimensions) is put into the string memo the copied registry shares
+              \* with the original: later Unit(str(expr), registry) calls get THAT unit ("poison")
+              [s EXCEPT !.ident = Lose(s.ident, u), !.dimshared = IF s.ident \in {"copy", "na"} THEN s.dimshared ELSE FALSE,
+                        !.key = IF s.key = "cold" THEN "poison" ELSE s.key]
          ELSE s
     [] c = "strrt" -> IF MemoHit(s, row) THEN s ELSE [Reparse(Rescale(s, o), u) EXCEPT !.key = IF s.key = "expr" THEN "expr" ELSE "str"]
     [] c = "json" -> [Rescale(s, o) EXCEPT !.ident = Regain(s.ident), !.regnew = TRUE, !.usys = "mks", !.idkept = FALSE, !.dimshared = TRUE, !.lutmixed = FALSE, !.key = "str"]
@@ -219,7 +235,7 @@ RestSame(f, o, s, ord) ==
     \/ ~s.lutkept /\ f \in {"custom_construct"}
     \/ ~s.unitkept /\ f \in ScaleFups /\ ~(f = "diff" /\ s.cls = "quantity")
     \/ s.usys # OrigUsys(o.reg) /\ f \in {"in_base", "base_equiv"} /\ UnitRow(o.unit).dim \in {"length", "compound"}
-    \/ o.reg # "default" /\ ~s.idkept /\ f \in {"in_code", "hash_orig"}
+    \/ o.reg # "default" /\ ~s.idkept /\ f \in {"in_code", "base_equiv_code", "hash_orig"}
     \/ o.reg = "default" /\ ~s.idkept /\ f = "hash_orig"
     \/ ~s.dimshared /\ f = "list_same"
 OrigSame(f, o, s, ord) ==
@@ -233,7 +249,7 @@ Follow(f) ==
 Terminal == \/ phase = "follow" /\ (Len(fups) = Len(FupSeq) \/ ~st.alive)
             \/ phase = "paths" /\ ~st.alive
 
-Next == \/ \E c \in ClsSet, ru \in Combos : Build(c, ru[1], ru[2])
+Next == \/ \E c \in ClsSet, ru \in Combos, pm \in PreSet : Build(c, ru[1], ru[2], pm[1], pm[2])
         \/ \E p \in PathSet : Persist(p)
         \/ \E o \in OrderSet : StartFollow(o)
         \/ \E f \in Fups : Follow(f)
